@@ -151,13 +151,16 @@ func (node *PFCPNode) NewPFCPConn(lAddr, rAddr string, buf []byte) *PFCPConn {
 
 	p.setLocalNodeID(node.upf.nodeID)
 
+	// Update map of connections before the first message is handled: if that message ends
+	// the connection (Association Release), the node must find the entry to forget it.
+	// Storing it afterwards left a dead entry behind that swallowed every later datagram
+	// from this peer.
+	node.pConns.Store(rAddr, p)
+
 	if buf != nil {
 		// TODO: Check if the first msg is Association Setup Request
 		p.HandlePFCPMsg(buf)
 	}
-
-	// Update map of connections
-	node.pConns.Store(rAddr, p)
 
 	go p.Serve()
 
